@@ -361,6 +361,26 @@ fn with_intrs(chunks: &[usize], pattern: usize, r: &mut Rng) -> Vec<Step> {
     s
 }
 
+/// a well-formed message with one long element: a name (which = 0) or a value (which = 1) of `len` octets
+fn long_elem_message(which: usize, len: usize) -> Vec<u8> {
+    let mut v = vec![1u8, 1, 0, 2, 0, 0, 0, 7, 1, 0x47, 0, 18];
+    v.extend_from_slice(b"attributes-charset");
+    v.extend_from_slice(&[0, 5]);
+    v.extend_from_slice(b"utf-8");
+    v.push(0x41);
+    if which == 0 {
+        v.extend_from_slice(&(len as u16).to_be_bytes());
+        v.extend((0..len).map(|i| b'a' + (i % 26) as u8));
+        v.extend_from_slice(&[0, 2, b'o', b'k']);
+    } else {
+        v.extend_from_slice(&[0, 1, b't']);
+        v.extend_from_slice(&(len as u16).to_be_bytes());
+        v.extend((0..len).map(|i| b'A' + (i % 26) as u8));
+    }
+    v.push(3);
+    v
+}
+
 fn short_corpus() -> Vec<(String, Vec<u8>)> {
     let h = [1u8, 1, 0, 2, 0, 0, 0, 1];
     let mk = |tail: &[u8]| {
@@ -524,6 +544,17 @@ pub fn run(a: &Args) {
             }
             // both entry points (parse / parse_parts), each async one against its own blocking one, on whole
             // messages and on messages cut at the boundaries of the reader's exact reads
+            // one element arriving in hundreds of pieces from a source that is ready every time (no not-ready result in between)
+            for (which, len) in [(0usize, 150usize), (1, 300), (1, 700), (0, 1000), (1, 5000)] {
+                let d = Arc::new(long_elem_message(which, len));
+                let cid = format!("manypieces-{which}-{len}");
+                let (ev2, _) = cx.msg(&cid, &d);
+                cx.run(&cid, "sync", &d, vec![], usize::MAX, false, ev2, "reference: blocking parse");
+                for c in [1usize, 2, 3] {
+                    cx.run(&cid, "async", &d, vec![], c, c == 2, ev2, "always-ready source, tiny pieces");
+                    cx.cmp(&cid);
+                }
+            }
             let mut done_small = 0usize;
             for (id, bytes) in &corp {
                 if bytes.len() > 80 || id.starts_with("tag") || done_small >= (if quick { 40 } else { 200 }) {
@@ -682,6 +713,28 @@ pub fn run(a: &Args) {
             }
         }
         "C07" => {
+            // faults inside the body of a long element (both parsers, every kind, offsets across the body)
+            for (which, len) in [(0usize, 300usize), (1, 513), (1, 600), (0, 1025), (1, 5000), (1, 40000)] {
+                let bytes = long_elem_message(which, len);
+                let id = format!("long-{which}-{len}");
+                let data = Arc::new(bytes.clone());
+                let (endv, _) = cx.msg(&id, &data);
+                let n = bytes.len();
+                let offs: Vec<usize> = vec![40, 41, 42, 60, n / 2, n - 600.min(n - 43), n - 100, n - 2, n - 1];
+                for (oi, off) in offs.iter().enumerate() {
+                    for (ki, kind) in KINDS7.iter().chain(["WouldBlock"].iter()).enumerate() {
+                        let piece = [1usize, 7, 512, 4096, usize::MAX][(oi + ki) % 5];
+                        if quick && (oi + ki) % 2 == 1 && piece == 1 && n > 2000 {
+                            continue;
+                        }
+                        let capped = vec![Step::FaultAt(*off, kind_from(kind))];
+                        if *kind != "WouldBlock" {
+                            cx.run(&id, "async", &data, capped.clone(), piece, (oi + ki) % 2 == 0, endv, "fault inside a long element");
+                        }
+                        cx.run(&id, "sync", &data, capped, piece, (oi + ki) % 2 == 1, endv, "fault inside a long element");
+                    }
+                }
+            }
             let corp = corpus(a, seed, if quick { 60 } else { 300 }, false);
             for (id, bytes) in &corp {
                 let n = bytes.len();
